@@ -58,7 +58,23 @@ MODELLED NOT VERIFIED: generator semantics; None values (TypeError before any mu
 OBSERVATION outside C11 (C01/C06 family, not reported here): Graph.insert_after(absent_anchor, [n]) leaves
   n.graph = g; a later Graph.remove([present, n]) then removes `present` and raises.  The generator avoids
   remove(iterable) over such nodes; single removes behave like the list.
-MUTANTS of /repo tried (scratch worktree, VERIF_REPO): see the end of this docstring.
+MUTANTS of /repo tried (scratch worktree /tmp/wt-C11, VERIF_REPO, quick tier, seed 0) — all 9 reported VIOLATION
+with a shrunk concrete replay; "coq" = the Coq correspondence (random and/or exhaustive tree) also diverged:
+  m1 erase() also clears the erased box's own links (prev=next=self)      oracle: next() never returns (Hang guard),
+                                                                          replay new,step,remove 1,step ; coq
+  m2 __iter__ reads box.next BEFORE yielding (eager successor)            oracle (flat + recursive) ; coq + tree
+  m3 erase() forgets `next_.prev = prev`                                  oracle: reversed(g) wrong after
+                                                                          remove,insert_before ; coq + tree
+  m4 _insert_many_after does not thread the insertion point               oracle: insert_after(3,[1,2]) -> [3,2,1] ; coq
+  m5 "same value -> no-op" rule removed from _insert_one_after            oracle: Function.sort() on one node loses it ; coq + tree
+  m6 erase() points the erased box's next at the root                     oracle: iterator stops early after
+                                                                          remove-current ; coq + tree
+  m7 RecursiveGraphIterator iterates tuple(graph) (snapshot)              oracle_rec only (traversal is not in Coq)
+  m8 __reversed__ reads box.prev before yielding                          oracle: reversed iterator misses
+                                                                          insert_before(current) ; coq + tree
+  m9 moving a present value re-points its old box at the new place        oracle: after sort the iterator does not
+     (iteration "follows" the moved node)                                 resume at the original successor ; coq + tree
+Their shrunk witnesses are kept in corpus/C11/1x-*.json.  Unchanged tree: quick exits 0 for VERIF_SEED=0,1,2,3.
 """
 
 from __future__ import annotations
